@@ -531,6 +531,8 @@ type hvgen struct {
 	vg    *vgen
 	s     *hSchema
 	noB64 bool
+	// usedCommaBlank: a comma-form list<string> source held an element with a blank at its edge
+	usedCommaBlank bool
 	// body document generation
 	presentPct    int
 	annoMemberPct int
@@ -763,6 +765,21 @@ func (g *hvgen) source(t *TType, key string) hSrcVal {
 			}
 			v.List = append(v.List, e)
 			parts = append(parts, tx)
+		}
+		// blanks next to a comma belong to the element ("Smith, John" holds " John"); never at either end of the whole
+		// value, which transports trim
+		if t.Elem.Kind == tSTRING && len(parts) > 1 && g.t.Chance(1, 3, "h.src.comma.blank") {
+			i := g.t.Intn(len(parts), "h.src.comma.blank.at")
+			switch {
+			case i == 0:
+				parts[i] += " "
+			case i == len(parts)-1:
+				parts[i] = " " + parts[i]
+			default:
+				parts[i] = []string{" " + parts[i], parts[i] + " ", " ", "  " + parts[i] + " "}[g.t.Intn(4, "h.src.comma.blank.how")]
+			}
+			v.List[i].S = []byte(parts[i])
+			g.usedCommaBlank = true
 		}
 		sv.Val = v
 		sv.Text = strings.Join(parts, ",")
